@@ -19,7 +19,7 @@ from typing import Dict, List, Optional, Tuple
 from ..algebra import Poly, Rat, to_rat
 from ..index import AnalysisError, call_name, norm, norm1, names_in
 from ..sem import Sem
-from .common import calls, enclosing, enclosing_all, fctx, in_body, is_name, method_calls, pmatch, stmts
+from .common import calls, const_of, enclosing, enclosing_all, fctx, in_body, is_name, kwarg, method_calls, pmatch, stmts
 
 LEVEL = "proof"
 EXPLANATION = (
@@ -456,8 +456,22 @@ def run(ctx) -> None:
     r8.check(okc, "the empty block starts where the last in-range group ends", wa, clampa[0] if clampa else wa.node,
              "the anti-sea block is not clamped with the END index of the last in-range group")
     w1 = idx.function(TET, "TetraWeights.weight_1k1b")
-    r8.check("ifder==-1:return1-self.weight_1k1b(ief,ik,ib,der=0)" in norm(w1.node).replace(" ", "").replace("\n", ""),
-             "anti-sea weight = 1 − sea weight", w1, w1.node, "der=-1 weight is not 1 − (der=0 weight)", stmt="der -1")
+    from ..sem import return_cases as _rc
+    W1S = Sem(idx, w1)
+    W1S.inline_helpers = False
+    derp = next((p_ for p_ in w1.params if p_ == "der"), None)
+    okanti = False
+    for v_, cs_, st_ in _rc(W1S, resolve=False):
+        if not any(t_.replace(" ", "") in (f"{derp}==-1", f"-1=={derp}") and p_ for t_, p_ in cs_):
+            continue
+        v2 = W1S.resolve(v_, W1S.cfg.node(st_))
+        if isinstance(v2, ast.BinOp) and isinstance(v2.op, ast.Sub) and const_of(v2.left) in (1, 1.0) and isinstance(v2.right, ast.Call) \
+                and norm(v2.right.func) == "self.weight_1k1b":
+            c_ = v2.right
+            dk = kwarg(c_, derp, w1.params.index(derp) - 1)
+            same = [norm(a_) for a_ in c_.args[:3]] == [p_ for p_ in w1.params[1:4]][:len(c_.args[:3])]
+            okanti = dk is not None and const_of(dk) == 0 and same
+    r8.check(okanti, "anti-sea weight = 1 − sea weight", w1, w1.node, "der=-1 weight is not 1 − (der=0 weight)", stmt="der -1")
     ie = idx.function(TET, "TetraWeights.index_eFermi")
     r8.instance(f"{ie.short}: cache key")
     conds = [s.test for s in ast.walk(ie.node) if isinstance(s, ast.If)]
@@ -487,6 +501,7 @@ def proof_info(ctx):
 from ..selftest import V  # noqa: E402
 
 SELFTEST = [
+    V("anti-sea weight returned as the sea weight", TET, "return 1 - self.weight_1k1b(ief, ik, ib, der=0)", "return self.weight_1k1b(ief, ik, ib, der=0)", "fire", "R14.8"),
     V("c22 coefficient: sign slip", TET, "c22 = (((e3 - e2) * (e4 - e2)) - (e1 - e3) * (2 * e2 + e4) - (e3 + e1 + e2) * (e2 - e4)) * denom2",
       "c22 = (((e3 - e2) * (e4 - e2)) + (e1 - e3) * (2 * e2 + e4) - (e3 + e1 + e2) * (e2 - e4)) * denom2", "fire", "R14.3"),
     V("c30 constant term forgotten", TET, "c30 = -e4 ** 3 * denom3 + 1.", "c30 = -e4 ** 3 * denom3", "fire", "R14.3"),
